@@ -40,8 +40,16 @@ class World:
         class Color(enum.Enum):
             RED = 1
             BLUE = 2
-        for c, n in ((A, "A"), (B, "B"), (G1, "G1"), (G2, "G2"), (Color, "Color")):
+        class Kind(str, enum.Enum):      # data mixins: a member equals (and hashes like) its plain value
+            A = "a"
+            B = "1"
+
+        class Level(int, enum.Enum):
+            LOW = 1
+            ZERO = 0
+        for c, n in ((A, "A"), (B, "B"), (G1, "G1"), (G2, "G2"), (Color, "Color"), (Kind, "Kind"), (Level, "Level")):
             c.__qualname__ = c.__name__ = n
+        self.enums = {30: Color, 31: Kind, 32: Level}
         self.NT0 = NewType("NT0", int)
         self.NT1 = NewType("NT1", str)
         self.Color = Color
@@ -70,10 +78,10 @@ class World:
                 return f"(TVBound {p[1]})"
             return f"(TVConstr {coq_list([str(c) for c in p[1]])})"
         params = coq_list([f"({g}, {coq_list([tv(p) for p in ps])})" for g, ps in sorted(self.params.items())])
-        members = list(self.Color)
-        en = coq_list([f"(30, {i}, {coq_str(m.name)})" for i, m in enumerate(members)])
-        return (f"(World {strs} {params} {en} [(30, {coq_str(str(type(members[0])))})] "
-                f"[(30, {coq_str(self.Color.__name__)})])")
+        en = coq_list([f"({c}, {i}, {coq_str(m.name)})" for c, E in sorted(self.enums.items()) for i, m in enumerate(E)])
+        es = coq_list([f"({c}, {coq_str(str(E))})" for c, E in sorted(self.enums.items())])
+        ec = coq_list([f"({c}, {coq_str(E.__name__)})" for c, E in sorted(self.enums.items())])
+        return f"(World {strs} {params} {en} {es} {ec})"
 
 
 # ----------------------------------------------------------------------------------------------------------------------
@@ -81,7 +89,7 @@ class World:
 
 LIT_POOL = [("LInt", 0), ("LInt", 1), ("LInt", 2), ("LInt", -7), ("LInt", 10), ("LBool", True), ("LBool", False),
             ("LStr", "a"), ("LStr", "1"), ("LStr", "it's"), ("LStr", ""), ("LBytes", "a"), ("LBytes", "1"),
-            ("LEnum", 30, 0), ("LEnum", 30, 1)]
+            ("LEnum", 30, 0), ("LEnum", 30, 1), ("LEnum", 31, 0), ("LEnum", 31, 1), ("LEnum", 32, 0), ("LEnum", 32, 1)]
 
 
 class Gen:
@@ -181,7 +189,7 @@ def py_lit(w, l):
         return l[1]
     if l[0] == "LBytes":
         return l[1].encode()
-    return list(w.Color)[l[2]]
+    return list(w.enums[l[1]])[l[2]]
 
 
 def or_able(x):
@@ -243,6 +251,9 @@ def py_hint(w, h, rnd):
 
 
 def show_lit_py(w, v):
+    if isinstance(v, enum.Enum):
+        c = next(c for c, E in w.enums.items() if type(v) is E)
+        return f"e{c}_{list(w.enums[c]).index(v)}"
     if isinstance(v, bool):
         return "b" + ("1" if v else "0")
     if isinstance(v, int):
@@ -251,7 +262,7 @@ def show_lit_py(w, v):
         return "s" + v
     if isinstance(v, bytes):
         return "y" + v.decode()
-    return f"e{list(w.Color).index(v)}"
+    return "?" + repr(v)
 
 
 def show_norm_py(w, n):
@@ -283,7 +294,7 @@ HEADER = """From AV Require Import Model.Norm Model.Harness.
 Local Open Scope string_scope.
 Definition show_lit (l : lit) : string :=
   match l with LInt z => "i" ++ show_Z z | LBool b => "b" ++ show_bool b | LStr s => "s" ++ s | LBytes s => "y" ++ s
-  | LEnum c i => "e" ++ show_nat i end.
+  | LEnum c i => "e" ++ show_nat c ++ "_" ++ show_nat i end.
 Fixpoint show_norm (n : norm) : string :=
   match n with
   | NNone => "None" | NAny => "Any" | NCls c => "C" ++ show_nat c | NNewType c => "NT" ++ show_nat c
@@ -421,10 +432,20 @@ def run(rep, tier, seed):
     n = 1500 if tier == "quick" else 30000
     hints = [g.hint(g.r.choice([1, 2, 2, 3, 3])) for _ in range(n)]
     # directed family: literal look-alikes in every union shape
-    for a, b in [(("LInt", 0), ("LBool", False)), (("LInt", 1), ("LBool", True)), (("LStr", "a"), ("LBytes", "a"))]:
+    for a, b in [(("LInt", 0), ("LBool", False)), (("LInt", 1), ("LBool", True)), (("LStr", "a"), ("LBytes", "a")),
+                 (("LStr", "a"), ("LEnum", 31, 0)), (("LStr", "1"), ("LEnum", 31, 1)), (("LInt", 1), ("LEnum", 32, 0)),
+                 (("LInt", 0), ("LEnum", 32, 1)), (("LBool", True), ("LEnum", 32, 0)), (("LEnum", 30, 0), ("LEnum", 32, 0))]:
         hints += [("HUnion", [("HLit", [a]), ("HLit", [b])]), ("HOpt", ("HLit", [a, b])), ("HLit", [a, b, None]),
                   ("HUnion", [("HLit", [b]), ("HCls", 0), ("HLit", [a])]), ("HLit", [b, a]),
                   ("HGen", 10, [("HUnion", [("HLit", [a]), ("HLit", [b])])])]
+    _cached = normalize_type
+    if hasattr(_cached, "cache_clear"):
+        # typing's Union / Literal objects compare equal whatever the order of their members, so the lru_cache of
+        # normalize_type answers a re-ordered spelling with the form computed for the first spelling it saw (until the
+        # entry is evicted).  The property is about the normaliser: every call below starts from an empty cache.
+        def normalize_type(tp):     # noqa: F811
+            _cached.cache_clear()
+            return _cached(tp)
     cases, expected = [], []
     for h in hints:
         try:
